@@ -89,9 +89,9 @@ def meta_groups(tier, seed):
     for std in ("c++14", "c++17"):
         calls = []
         for rank in (2, 3, 4, 5):
-            for p in itertools.permutations(range(rank)):
+            for p in perms_of(rank, rng, 40 if (tier == "quick" and rank == 5) else None):
                 calls.append(meta_call(p, rng.choice(SHAPES[rank])))
-        for p in perms_of(6, rng, 6 if tier == "quick" else 60):
+        for p in perms_of(6, rng, 4 if tier == "quick" else 60):
             calls.append(meta_call(p, rng.choice(SHAPES[6])))
         groups.append({"key": "meta/%s" % std, "header": HDR, "isa": "sse2", "std": std, "calls": calls})
     return groups
@@ -117,9 +117,10 @@ def trans_groups(tier, seed):
         blocks = [(1, 1)] if V == 1 else [(r, c) for r in (1, 2, 3) for c in (1, 2, 3)]
         if tier == "quick" and V != 1:
             # every block-size pair at least once across the four vectorised configurations
-            others = [b for b in blocks if b != (1, 1)]
+            # the default pair under every vector width; five other pairs (each macro at 2 and at 3, equal and unequal)
+            # spread over the four vectorised configurations — all nine pairs per width in the thorough tier
             ci = [c[:2] for c in TRANS_CFGS].index((isa, sz))
-            blocks = [(1, 1)] + [others[(2 * ci + k) % 8] for k in range(3 if ci % 2 == 0 else 2)]
+            blocks = [(1, 1)] + [[(1, 2), (3, 2)], [(2, 1)], [(2, 3)], [(3, 3)]][ci]
         for (nr, nc) in blocks:
             ib, ob = V * nc, V * nr
             calls = []
@@ -157,7 +158,9 @@ def oracle_groups(tier, seed):
     rng = random.Random(seed * 271 + 77)
     groups = []
     # permute followed by the inverse permutation is the identity, token for token
-    for (isa, std, co) in [("sse2", "c++14", None), ("avx2", "c++17", None), ("avx512", "c++17", "-1"), ("avx2", "c++14", "-1")]:
+    rt_cfgs = [("sse2", "c++14", None), ("avx2", "c++17", "-1")] if tier == "quick" else \
+              [("sse2", "c++14", None), ("avx2", "c++17", None), ("avx512", "c++17", "-1"), ("avx2", "c++14", "-1")]
+    for (isa, std, co) in rt_cfgs:
         calls = []
         for rank in (2, 3, 4, 5):
             ns = None if (rank <= 3 or tier == "thorough") else (8 if rank == 4 else 2)
